@@ -168,9 +168,16 @@ CLAIMED = {
         "the prescribed length, with the parsed header in front and every chunk present - which IS the server's file B byte for "
         "byte, or two different byte strings with the same chunk checksum are exhibited.  NOTHING PRESENT IS FETCHED AGAIN "
         "(request_only_missing, present_not_requested): every round's request contains only chunks marked missing, a chunk the "
-        "scan found present keeps its valid mark through copy, reset and every round, and valid chunks are never modified.  NOT proved: "
-        "completeness - that the run does end that way with an honest server (termination, exact request set); the single-range "
-        "callback path is complete (C05 complete_single) but the multipart path and the loop's progress are decided on explored "
+        "scan found present keeps its valid mark through copy, reset and every round, and valid chunks are never modified.  "
+        "COMPLETENESS IS PROVED for well-formed responses (C04Complete.lean: req_ready, round_complete, loop_complete, "
+        "afterHeader_complete, update_complete): a round's request is the list of spans of groups of adjacent extents of missing "
+        "chunks; the reference server's slice for each range is the concatenation of the stored bytes of its group; with the regex "
+        "oracle reading that response as intended (hypothesis Honest) the round is carried out under ANY fragment size, every "
+        "requested chunk becomes valid and no other mark changes; the number of marks still 0 strictly decreases, so the loop "
+        "ends without error and with every chunk valid, and the target IS B (or a collision).  Hypotheses that remain: Honest "
+        "(glibc's regexec finds the boundary and the two numbers of each Content-Range; the part header's first CRLFCRLF is its "
+        "end; the closing delimiter holds no part header) and Marks (after scan, copy and reset there is one mark per chunk, 0 or "
+        "1, and chunks without stored bytes are valid) - both are met on every explored run, which is what the check decides on explored "
         "inputs only: the procedure is run in-process with the real library against a reference server with every request "
         "logged, and judged (target == B, validation 1, requested bytes == extents of chunks neither verified-present nor "
         "available intact from A, none twice) over file pairs x initial targets x damaged old files x limits {1,2,3,7,127,255,-1} "
@@ -178,12 +185,15 @@ CLAIMED = {
         "working tree (src/zck_dl.c + libcurl) is run against a loopback HTTP range server (single-range / multipart / 200-when-"
         "too-many-ranges, uneven socket writes) and judged by the same predicate on the server's request log and the file it left.",
    design_ref="DESIGN.md section 7a C04",
-   note="Partial: completeness/termination/exactness are checked (correspondence + predicate on the implementation), soundness is "
-        "proved (hypotheses: the old file has the same chunk checksum type; an empty dictionary entry has no stored bytes). "
+   note="Partial: soundness and completeness are theorems about the model; completeness rests on the hypotheses Honest (regex oracle "
+        "+ response text) and Marks (shape of the marks after scan/copy/reset), which are checked on explored runs, not proved; the "
+        "exact request set (nothing fetched twice across rounds) is request_only_missing + the predicate on explored runs "
+        "(soundness hypotheses: the old file has the same chunk checksum type; an empty dictionary entry has no stored bytes). "
         "libcurl and zckdl's own plumbing (range back-off, --fail-no-ranges) are not modelled: they are exercised by the real-zckdl "
         "runs and judged by the predicate only.",
    technique="Lean 4 proof (invariant 'valid => present' established by the scan (induction over the index with exact-or-EOF read "
-             "position), kept by copy, reset, every transfer and round; extent-wise equality of files with a running index) + "
+             "position), kept by copy, reset, every transfer and round; extent-wise equality of files with a running index; "
+             "completeness by refinement of the request to groups of adjacent extents and induction on the number of missing marks) + "
              "differential correspondence of the whole procedure with logged requests"),
  'C11': dict(
    text="PARTIAL proof (Lean 4): the only state surviving an interruption is the target file, and the model of the procedure and "
@@ -193,14 +203,14 @@ CLAIMED = {
         "later transfers, the scan trusts a chunk exactly when all its stored bytes are there and hash to the checksum; and C04's "
         "update_yields_B holds from any crash state: a restart that ends without error and with every chunk valid has produced B "
         "(or a collision); a chunk completely and correctly on disk at the interruption is marked valid by the restart's scan "
-        "(C09 find_valid_exact) and is in no request of the restart (C04 present_not_requested / valid_not_requested).  NOT proved (as C04): that the restart does end that way.  Decided on explored inputs: the real library is run in-process with the k-th write(2) on the "
+        "(C09 find_valid_exact) and is in no request of the restart (C04 present_not_requested / valid_not_requested).  CONVERGENCE is proved for well-formed responses (restart_converges, from C04 loop_complete): from ANY crash state the restart's fetch loop ends without error and with every chunk valid and present, hence B or a collision (hypotheses Honest and Marks as in C04).  Decided on explored inputs: the real library is run in-process with the k-th write(2) on the "
         "target cut short (none/half/all bytes) and the run abandoned, for EVERY k of small scenarios and for chains of 2-5 "
         "interruptions; the restart is judged from the target as the interruption left it: converges to B, its scan trusts only "
         "verified-present chunks, its requests are exactly the chunks not present and not available from A.  The REAL zckdl binary "
         "is also killed (LD_PRELOAD: _exit inside the k-th write(2) on the target, none/half/all bytes stored) against the loopback "
         "range server and run again to completion, judged the same way from the file the kill left.",
    design_ref="DESIGN.md section 7 C11",
-   note="Partial: convergence and no-refetch are checked on every kill point explored, not proved; process death is modelled as "
+   note="Partial: convergence rests on the hypotheses Honest / Marks of C04 (checked on every kill point explored); process death is modelled as "
         "abandoning the contexts inside write(2) (siglongjmp), torn writes below write(2) granularity are not considered.",
    technique="Lean 4 proof (corollaries of the C04/C05/C09 theorems, which quantify over arbitrary initial targets) + exhaustive "
              "kill-point enumeration over write(2) calls as correspondence and search"),
